@@ -364,3 +364,24 @@ class T2PageTag(nfc.tag.tt2.Type2Tag):
         self.mem = self.mem[0:addr] + bytes(data) + self.mem[addr + 4:]
         self.writes = self.writes + 1
         return True
+
+
+class T1BlockTag(nfc.tag.tt1.Type1Tag):
+    """A Type 1 Tag as ghost memory behind the write commands: WRITE-E8 replaces one 8-octet block, WRITE-E one
+    octet, atomically; only units whose content differs are written (interface obligation)."""
+    def __init__(self, mem):
+        self.mem = mem
+        self.writes = 0
+
+    def write_block(self, block, data, erase=True):
+        addr = 8 * block
+        require(len(data) == 8 and addr + 8 <= len(self.mem), 'WRITE-E8 addresses one block of the tag')
+        require(bytes(data) != self.mem[addr:addr + 8], 'only blocks whose content differs are written')
+        self.mem = self.mem[0:addr] + bytes(data) + self.mem[addr + 8:]
+        self.writes = self.writes + 1
+
+    def write_byte(self, addr, data, erase=True):
+        require(addr >= 0 and addr < len(self.mem) and data >= 0 and data <= 255, 'WRITE-E addresses one octet')
+        require(data != self.mem[addr], 'only octets whose content differs are written')
+        self.mem = self.mem[0:addr] + bytes([data]) + self.mem[addr + 1:]
+        self.writes = self.writes + 1
